@@ -42,6 +42,16 @@ built from the same description.  A write through a live reference may now be co
 component instead of invalidate_cache_for_component (in_domain = Cache.Model.ok_hist with Cache.Model.commits), e.g.
 edit the live definition in place and hand it back to update_component.
 
+THE ACTIVE PLATFORM (round 6): the histories also hold configure_platform(p) (p a platform of the document, None, '',
+rarely an unknown one) and calls whose platform argument is OMITTED (None or ''): the fully resolved query, the
+platform setters set_platform_global_variable / set_platform_stage_variable, the live getters
+get_platform_global_variables / get_platform_stage_variables(return_copy=False), and the platform argument of every
+read-only call and accessor (ReadOnly, MutateResult).  In a history an omitted platform is written None / ''; the
+model is told `Im <call>` (Cache.Model.astep: the call for the platform active at that moment) and
+`ConfigurePlatform`.  Predicate: the object built from scratch for the comparison is constructed FOR THE PLATFORM
+THAT IS ACTIVE at that point of the history (the harness follows the configure_platform calls itself) and asked the
+same question with the same - possibly omitted - platform argument; configure_platform must leave raw() alone.
+
 Not covered: operations that rename a component (option route `name`/`stage`, update_component with another
 identity); values the C04 model does not interpret (array indices, interpreter, memory/qos converters)."""
 import copy
@@ -103,6 +113,9 @@ ASSUMPTIONS = [
     'and cache labels; what they return is not modelled (their results are only scrambled in place by the caller)',
     'a mutator handed an object that is (shares parts with) live state of the object means the call with the value of '
     'that object at the time of the call; the harness computes that value (a deep copy taken just before the call)',
+    'the active platform of the object is followed by the harness itself (constructor argument, then `p or default` at '
+    'every configure_platform); a call whose platform argument is None or the empty text is told to the model as the '
+    'implicit call (Im), and the object built from scratch for the comparison is constructed for the active platform',
 ]
 HEADER = 'Require Import V.Lib.JTree V.Conf.Model V.Cache.Model V.Cache.Generated.\nOpen Scope string_scope.'
 CORPUS = os.path.join(os.path.dirname(os.path.abspath(__file__)), 'corpus', 'c08')
@@ -300,15 +313,27 @@ def gen_ops(rng, plats, ids, nops, stream, live=False):
             return rng.choice(alive)
         return (rng.choice(STAGES), rng.choice(pool_names))
 
-    def some_plat():
+    def some_plat(may_omit=True):
         r = rng.random()
         if r < 0.08:
             return 'zz-new'
-        return rng.choice(plats)
+        return implicit_or(rng.choice(plats), 0.25) if may_omit else rng.choice(plats)
+
+    def implicit_or(p, share):
+        """the platform argument of a call: written out, or (share of the calls) left to the object - None or ''"""
+        if rng.random() < share:
+            return None if rng.random() < 0.8 else ''
+        return p
 
     while len(ops) < nops:
         k += 1
         tag = 'u%d' % k
+        if rng.random() < 0.045:
+            # configure_platform: the active platform of THIS object changes between the calls
+            rp = rng.random()
+            ops.append(['ConfigurePlatform', rng.choice(plats) if rp < 0.8 else None if rp < 0.9 else
+                        '' if rp < 0.95 else 'nowhere'])
+            continue
         r0 = rng.random()
         if r0 >= 0.93:
             # another read-only call of the interface (kind, platform, component, flags)
@@ -317,7 +342,7 @@ def gen_ops(rng, plats, ids, nops, stream, live=False):
             flags = rng.randrange(32)
             if kind in ('conf', 'conf_node') and rng.random() < 0.5:
                 flags &= ~8                    # inject_missing_fields=False
-            ops.append(['ReadOnly', kind, rng.choice(plats) if rng.random() < 0.95 else 'nowhere', s, n, flags])
+            ops.append(['ReadOnly', kind, implicit_or(rng.choice(plats), 0.3) if rng.random() < 0.95 else 'nowhere', s, n, flags])
             continue
         if r0 < 0.05:
             # the caller changes one (or all) of the objects it handed to the mutators so far
@@ -357,18 +382,18 @@ def gen_ops(rng, plats, ids, nops, stream, live=False):
             continue
         if live and r0 < 0.14:
             v = rng.choice(['g', 'y', 'x'])
-            ops.append(['LiveVarWrite', some_plat(), v, gen_str_value(rng, v, tag)])
+            ops.append(['LiveVarWrite', some_plat(False), v, gen_str_value(rng, v, tag)])
             continue
         r = rng.random()
         if r < 0.40:
             s, n = some_id()
-            ops.append(['Query', rng.choice(plats) if rng.random() < 0.95 else 'nowhere', s, n])
+            ops.append(['Query', implicit_or(rng.choice(plats), 0.4) if rng.random() < 0.95 else 'nowhere', s, n])
         elif r < 0.44:
             if rng.random() < 0.5:
                 ops.append(['MutateResult'])
             else:
                 s, n = some_id()
-                ops.append(['MutateResult', 1 + rng.randrange(0, 14), rng.choice(plats), s, n])
+                ops.append(['MutateResult', 1 + rng.randrange(0, 14), implicit_or(rng.choice(plats), 0.3), s, n])
         elif r < 0.54:
             s, n = some_id()
             v = rng.choice(VARS[:3] if rng.random() < 0.9 else ['n'])
@@ -533,7 +558,11 @@ class Driver(object):
     def query(self, conc, p, s, n):
         """returns (observation, live result object or None)"""
         try:
-            r = conc.get_component_configuration((s, n), include_default=True, platform=p)
+            if p is None:
+                # the platform argument is omitted altogether (what conf.py, graph.py and the scripts do)
+                r = conc.get_component_configuration((s, n), include_default=True)
+            else:
+                r = conc.get_component_configuration((s, n), include_default=True, platform=p)
         except Exception as e:
             return self.exc(e), None
         return ['val', copy.deepcopy(r)], r
@@ -763,6 +792,9 @@ class Driver(object):
             if k == 'Invalidate':
                 conc.invalidate_cache_for_component((op[1], op[2]))
                 return ['done']
+            if k == 'ConfigurePlatform':
+                conc.configure_platform(op[1])
+                return ['done']
             if k == 'SetCompVar':
                 cid, how = (op[1], op[2]), op[5] if len(op) > 5 else 0
                 if how == 0:
@@ -784,13 +816,25 @@ class Driver(object):
             elif k == 'SetStage':
                 conc.set_stage_variable(op[1], op[2], val(op[3]))
             elif k == 'SetPlatGlobal':
-                conc.set_platform_global_variable(op[2], val(op[3]), op[1])
+                if op[1] is None:
+                    conc.set_platform_global_variable(op[2], val(op[3]))
+                else:
+                    conc.set_platform_global_variable(op[2], val(op[3]), op[1])
             elif k == 'SetPlatStage':
-                conc.set_platform_stage_variable(op[2], op[3], val(op[4]), op[1])
+                if op[1] is None:
+                    conc.set_platform_stage_variable(op[2], op[3], val(op[4]))
+                else:
+                    conc.set_platform_stage_variable(op[2], op[3], val(op[4]), op[1])
             elif k == 'RefPlatGlobal':
-                conc.get_platform_global_variables(op[1], return_copy=False)[op[2]] = val(op[3])
+                if op[1] is None:
+                    conc.get_platform_global_variables(return_copy=False)[op[2]] = val(op[3])
+                else:
+                    conc.get_platform_global_variables(op[1], return_copy=False)[op[2]] = val(op[3])
             elif k == 'RefPlatStage':
-                conc.get_platform_stage_variables(op[2], op[1], return_copy=False)[op[3]] = val(op[4])
+                if op[1] is None:
+                    conc.get_platform_stage_variables(op[2], return_copy=False)[op[3]] = val(op[4])
+                else:
+                    conc.get_platform_stage_variables(op[2], op[1], return_copy=False)[op[3]] = val(op[4])
             elif k == 'AddComp':
                 conc.add_component(val(op[1], 1))
             elif k == 'ReplaceComp':
@@ -906,6 +950,41 @@ def c_op(op, loc=None):
     raise ValueError(k)
 
 
+PLATFORM_SLOT = ('Query', 'SetPlatGlobal', 'SetPlatStage', 'RefPlatGlobal', 'RefPlatStage')
+
+
+def implicit(op):
+    """the call takes a platform and the caller left it out (None, or the empty text: `platform or self._platform`)"""
+    return op[0] in PLATFORM_SLOT and not op[1]
+
+
+def c_aop(op, loc=None):
+    """an operation of the larger alphabet (Cache.Model.aop): explicit call, implicit-platform call, platform switch"""
+    if op[0] == 'ConfigurePlatform':
+        return '(ConfigurePlatform %s)' % ('None' if op[1] is None else '(Some %s)' % cstr(op[1]))
+    if implicit(op):
+        return '(Im %s)' % c_op([op[0], ''] + list(op[2:]), loc)
+    return '(E %s)' % c_op(op, loc)
+
+
+def next_active(active, op):
+    """the active platform after the call (mirror of Cache.Model.act_next: configure_platform(p) -> p or 'default')"""
+    if op[0] == 'ConfigurePlatform':
+        return op[1] or 'default'
+    return active
+
+
+def effective_platforms(case, ops=None):
+    """for every operation of the history: the platform the call is made for (the one written out, else the one that
+    is active at that point); None for calls without a platform"""
+    active = case.get('active') or 'default'
+    out = []
+    for op in (case['ops'] if ops is None else ops):
+        out.append((op[1] or active) if op[0] in PLATFORM_SLOT else None)
+        active = next_active(active, op)
+    return out
+
+
 def arg_locs(ops):
     """for every MutateArg of the history: where the object it changes would sit in the description had the mutator
     that received it stored the object itself ((stage, name, route) of a component; None for variable values)"""
@@ -978,7 +1057,7 @@ def c_iobs(o, same, base):
         clist([str(k) for k in pw[0]], cstr), 'None' if pw[1][0] == 'del' else '(Some %s)' % cjv(pw[1][1])))
 
 
-def case_term(raw0, ops, obs, keys, base):
+def case_term(raw0, ops, obs, keys, base, active='default'):
     vals = {}
     items = []
     for i, (o, ks) in enumerate(zip(obs, keys)):
@@ -992,15 +1071,16 @@ def case_term(raw0, ops, obs, keys, base):
             else:
                 vals[c] = i
         items.append('(%s, %s)' % (c_iobs(o, same, base), clist(ks, cstr)))
-    return '((real_dflt, real_base, (%s, %s, %s), %s, %s) : case)' % (
+    return '((real_dflt, real_base, (%s, %s, %s), %s, %s, %s) : case)' % (
         cjv(raw0.get('blueprint') or {}), cjv(raw0.get('variables') or {}), clist(raw0.get('components') or [], cjv),
-        clist(list(zip(ops, arg_locs(ops))), lambda ol: c_op(ol[0], ol[1])), clist(items))
+        cstr(active or 'default'),
+        clist(list(zip(ops, arg_locs(ops))), lambda ol: c_aop(ol[0], ol[1])), clist(items))
 
 
 # ------------------------------------------------------------------ one history on the real object
 def classes_of(case):
     cl = []
-    if any(op[0] == 'Query' and ':' in op[1] for op in case['ops']):
+    if any(op[0] == 'Query' and ':' in p for op, p in zip(case['ops'], effective_platforms(case))):
         cl.append('platform_name_contains_colon')
     return cl
 
@@ -1040,13 +1120,16 @@ def play(drv, case, upto=None):
     failures [(index, text)])"""
     conc = drv.new(case['doc'], case['active'])
     state = {}
+    active = case['active'] or 'default'        # the harness follows the active platform on its own
     keep_global_refs(conc, state)
     raw0 = conc.raw()
     prev = canon_doc(raw0)
     obs, keys, fails, rops = [], [], [], []
     for i, op in enumerate(case['ops'][:upto]):
         before = conc.raw() if has_spec(op) else None
+        active_before = active
         o = drv.apply(conc, op, state)
+        active = next_active(active, op)
         obs.append(o)
         rops.append(state['rop'])
         keys.append(sorted(conc._cache.keys()))
@@ -1056,7 +1139,7 @@ def play(drv, case, upto=None):
             # the same call with an equal but independent copy, on an object built from the same description, must
             # leave the same description (and end the same way)
             try:
-                twin = drv.new(before, case['active'])
+                twin = drv.new(before, active_before)
                 same_start = canon_doc(twin.raw()) == canon_doc(before)
             except Exception:
                 same_start = False
@@ -1079,14 +1162,17 @@ def play(drv, case, upto=None):
             prev = canon_doc(conc.raw())
         if op[0] == 'Query':
             # the property predicate: the same question asked of an object built from scratch from the description
+            # (an object constructed for the platform that is active NOW, asked with the same - possibly omitted -
+            # platform argument)
             try:
-                fresh = drv.new(conc.raw(), case['active'])
+                fresh = drv.new(conc.raw(), active)
                 fo, _ = drv.query(fresh, op[1], op[2], op[3])
             except Exception as e:      # the description the object now holds does not even load
                 fo = drv.exc(e)
             if canon(fo) != canon(o):
-                what = ('a query after %s returns %s although the current description resolves to %s'
-                        % (last_mutator(case['ops'][:i]), brief(o, fo), brief(fo, o)))
+                what = ('a query %safter %s returns %s although the current description resolves to %s'
+                        % ('' if op[1] else 'for the active platform (no platform argument) ',
+                           last_mutator(case['ops'][:i]), brief(o, fo), brief(fo, o)))
                 fails.append((i, what))
     return raw0, obs, keys, fails, rops
 
@@ -1108,7 +1194,7 @@ def identity_text(op):
         '%s of stage%s.%s' % (k, src[0], src[1]) for k, src in x.get('parts', []))
 
 
-READ_ONLY_OPS = ('Query', 'MutateResult', 'MutateArg', 'Invalidate', 'ReadOnly')
+READ_ONLY_OPS = ('Query', 'MutateResult', 'MutateArg', 'Invalidate', 'ReadOnly', 'ConfigurePlatform')
 
 
 def canon_doc(raw):
@@ -1215,9 +1301,15 @@ def explore(ctx, cases):
         hits = 0
         stale_chance = 0
         prev = []
+        eff = effective_platforms(case)
+        switched = False
         for i, op in enumerate(ops):
+            if op[0] == 'ConfigurePlatform':
+                switched = True
+            elif op[0] == 'Query' and not op[1] and switched and i > 0 and keys[i - 1]:
+                ctx.count('implicit_queries_after_a_platform_switch_on_warm_cache')
             if op[0] == 'Query':
-                lab = 'component:%s:stage%s:%s' % (op[1], op[2], op[3])
+                lab = 'component:%s:stage%s:%s' % (eff[i], op[2], op[3])
                 if i > 0 and lab in keys[i - 1]:
                     hits += 1
                 elif i == 0:
@@ -1236,6 +1328,8 @@ def explore(ctx, cases):
         ctx.count('mutators_run_on_warm_cache', stale_chance)
         for op, o in zip(ops, obs):
             ctx.count('op=' + op[0])
+            if op[0] in PLATFORM_SLOT:
+                ctx.count('platform_argument=%s:%s' % (op[0], 'omitted' if not op[1] else 'given'))
             if has_spec(op):
                 x = [v for v in op[1:] if is_spec(v)][0]
                 ctx.count('argument_identity=%s:%s' % (op[0], 'shares-live-sections' if '@share' in x else
@@ -1251,7 +1345,7 @@ def explore(ctx, cases):
                         'observations': [o if o[0] != 'val' else ['val', o[1].get('command')] for o in obs]})
         if case.get('stream') == 'interpreter':
             continue            # predicate only (see interpreter_cases)
-        terms.append(case_term(raw0, rops, obs, keys, base))
+        terms.append(case_term(raw0, rops, obs, keys, base, case['active']))
         kept.append((case, obs, keys))
     for (kind, outcome), cnt in sorted(drv.ro_stats.items()):
         ctx.count('read_only_outcome=%s:%s' % (kind, outcome), cnt)
@@ -1421,6 +1515,22 @@ EX3_ALPHABET = [
 EX3_SWEEP = EX_SWEEP + [['Query', 'p', 0, 'foo2']]
 
 
+# fourth family: THE ACTIVE PLATFORM - implicit-platform calls and configure_platform (document EX_DOC, constructed
+# for platform p): implicit queries of two components, an explicit query, two platform switches, a mutator of another
+# component (the entries of foo survive it), a platform variable set for the active platform
+EX4_ALPHABET = [
+    ['Query', None, 0, 'foo'],
+    ['Query', None, 0, 'foo1'],
+    ['Query', 'p', 0, 'foo'],
+    ['ConfigurePlatform', 'default'],
+    ['ConfigurePlatform', 'p'],
+    ['SetCompVar', 0, 'foo1', 'x', 'x-new', 0],
+    ['SetPlatGlobal', None, 'g', 'G-active'],
+]
+EX4_SWEEP = [['Query', None, 0, 'foo'], ['Query', None, 0, 'foo1'], ['Query', 'p', 0, 'foo'], ['Query', 'default', 0, 'foo'],
+             ['ConfigurePlatform', None], ['Query', None, 0, 'foo'], ['Query', '', 0, 'foo1']]
+
+
 def exhaustive_cases(maxlen):
     out = []
     for L in range(1, maxlen + 1):
@@ -1434,6 +1544,10 @@ def exhaustive_cases(maxlen):
     for L in range(1, maxlen + 1):
         for seq in itertools.product(EX3_ALPHABET, repeat=L):
             out.append({'doc': EX_DOC, 'active': 'p', 'ops': [copy.deepcopy(o) for o in seq] + EX3_SWEEP,
+                        'stream': 'exhaustive'})
+    for L in range(1, maxlen + 1):
+        for seq in itertools.product(EX4_ALPHABET, repeat=L):
+            out.append({'doc': EX_DOC, 'active': 'p', 'ops': [copy.deepcopy(o) for o in seq] + EX4_SWEEP,
                         'stream': 'exhaustive'})
     return out
 
@@ -1495,7 +1609,13 @@ def run(ctx):
                 'length <= 3 (thorough: 4) over a 12-operation alphabet followed by a sweep of 4 queries, and over a '
                 '7-operation alphabet (2 queries, 3 read-only calls, 2 mutators) on a document with stage-level '
                 'blueprints, and over a 7-operation alphabet of mutators handed live state (the live definition, a '
-                'dictionary sharing live sections, a live section of the same / another component); non-trivial = '
+                'dictionary sharing live sections, a live section of the same / another component), and over a 7-operation '
+                'alphabet of implicit-platform queries, an explicit query, configure_platform(default / p), a mutator of '
+                'another component and set_platform_global_variable without a platform; in the random histories ~4.5% of '
+                'the operations are configure_platform(p | None | \'\' | unknown) and ~40% of the queries, ~25% of the '
+                'platform setters / live getters and ~30% of the read-only calls omit the platform argument (None or \'\': '
+                'the call is for the platform active at that moment; the from-scratch object is constructed for that '
+                'platform); non-trivial = '
                 'at least two queries and at least one mutator executed while the cache held entries; distinct by '
                 '(document, history)')
     rng = ctx.rng
@@ -1506,8 +1626,11 @@ def run(ctx):
     ctx.exhaustive = True
     ctx.extra['exhaustive_scope'] = ('all histories of length <= %d over %d operations (+ 4 final queries) on one document, and '
                                      'over %d operations (queries, 3 read-only calls, 2 mutators) on a document with '
-                                     'stage-level blueprints, and over %d operations handed live state (argument identity)'
-                                     % (3 if quick else 4, len(EX_ALPHABET), len(EX2_ALPHABET), len(EX3_ALPHABET)))
+                                     'stage-level blueprints, and over %d operations handed live state (argument identity), '
+                                     'and over %d operations with omitted platform arguments and configure_platform '
+                                     '(+ a sweep of 7: implicit / explicit queries, configure_platform(None), implicit queries)'
+                                     % (3 if quick else 4, len(EX_ALPHABET), len(EX2_ALPHABET), len(EX3_ALPHABET),
+                                        len(EX4_ALPHABET)))
     cases += ex
     cases += random_cases(rng, 420 if quick else 2500, 'prefix')
     cases += random_cases(rng, 200 if quick else 1200, 'meta')
